@@ -94,7 +94,8 @@ def inline_crate(j):
     kn = known().get('bin' if j.get('is_bin') else 'lib')
     if kn is None:
         return {'inlined': 0, 'dropped': []}
-    renamed = _alias_renamed(j, kn)
+    moved = _alias_moved(j, kn)
+    renamed = moved + _alias_renamed(j, kn)
     renamed += _alias_fields(j)
     by_name = {f['name']: f for f in j['fns']}
     _CTX['by_name'], _CTX['j'] = by_name, j
@@ -313,6 +314,72 @@ def inline_crate(j):
                 cfgnorm.thread_jumps(f, j.get('adts') or {})
                 stats['webs'] += cfgnorm.split_webs(f)
     return stats
+
+
+_PATH_RE = None
+
+
+def _alias_moved(j, kn):
+    """items (types, traits, functions) that kept their name but moved to another module of the crate — a private
+    module split off or merged — get their reference paths back: `solve::sampling::SampledChance` is
+    `solve::data::SampledChance` again, in every name, type and signature of the facts (textual, whole-path)"""
+    import re
+    global _PATH_RE
+    if _PATH_RE is None:
+        _PATH_RE = re.compile(r'[A-Za-z_][A-Za-z0-9_]*(?:::[A-Za-z_][A-Za-z0-9_]*)+')
+    kind = 'bin' if j.get('is_bin') else 'lib'
+    k_adts = known().get(kind + '_adts') or {}
+    names = {f['name'] for f in j['fns'] if f.get('kind') != 'Closure'}
+    missing = [n for n in kn if n not in names]
+    unknown = [n for n in names if n not in kn]
+    item_map = {}
+    # types
+    cur_adts = j.get('adts') or {}
+    ext = ('std::', 'core::', 'alloc::')
+    for k in k_adts:
+        if k in cur_adts or k.startswith(ext) or '::' not in k and False:
+            continue
+        last = k.split('::')[-1]
+        cands = [c for c in cur_adts if c not in k_adts and c.split('::')[-1] == last and not c.startswith(ext)]
+        if len(cands) == 1 and cands[0] != k:
+            item_map[cands[0]] = k
+
+    def canon(n):
+        return _PATH_RE.sub(lambda m: m.group(0).split('::')[-1], n)
+    if missing and unknown:
+        by_canon = {}
+        for u in unknown:
+            by_canon.setdefault(canon(u), []).append(u)
+        for m_ in missing:
+            c = by_canon.get(canon(m_)) or []
+            if len(c) != 1:
+                continue
+            pa, pb = _PATH_RE.findall(c[0]), _PATH_RE.findall(m_)
+            if len(pa) != len(pb):
+                continue
+            for a, b in zip(pa, pb):
+                if a != b and a.split('::')[-1] == b.split('::')[-1] and not a.startswith(ext) and not b.startswith(ext):
+                    item_map.setdefault(a, b)
+    # an inherent impl block moved to another module: `m::<impl a::T>::f` is `a::T::f`
+    for u in unknown:
+        mm = re.match(r'^([A-Za-z0-9_:]+)::<impl ([^<>]+(?:<[^<>]*>)?)>::([A-Za-z0-9_]+)$', u)
+        if mm and ('%s::%s' % (mm.group(2), mm.group(3))) in missing:
+            item_map.setdefault('%s::<impl %s>' % (mm.group(1), mm.group(2)), mm.group(2))
+    # never map onto a path that still exists as something else
+    item_map = {a: b for a, b in item_map.items() if a != b}
+    if not item_map:
+        return []
+    txt = json.dumps(j)
+    for a in sorted(item_map, key=len, reverse=True):
+        txt = re.sub(r'(?<![A-Za-z0-9_:])' + re.escape(a) + r'(?![A-Za-z0-9_])', lambda _m, b_=item_map[a]: b_, txt)
+    new = json.loads(txt)
+    # two functions must not collapse onto one name
+    fn_names = [f['name'] for f in new['fns']]
+    if len(set(fn_names)) != len(fn_names):
+        return []
+    j.clear()
+    j.update(new)
+    return ['moved %s -> %s' % (a, b) for a, b in sorted(item_map.items())]
 
 
 def _alias_renamed(j, kn):
@@ -1025,5 +1092,9 @@ def write_known(crates):
             out[kind + '_calls'] = {n: sorted({(t['callee'].get('path') or t['callee'].get('def') or '').split('::')[-1] for g in [f] + c.closures_of(f) for b in g.blocks for t in [b['term']] if t['t'] == 'call'} |
                                               {'op:' + st['rv']['op'] for g in [f] + c.closures_of(f) for b in g.blocks for st in b['stmts'] if st['s'] == 'assign' and st['rv']['r'] == 'bin' and st['rv']['op'] in ('Add', 'Sub', 'Mul', 'Div')})
                                     for n, f in sorted(c.fns.items()) if not f.is_closure}
+            # coarse body shape after normalisation (helpers spliced in): reference for the restructuring gate
+            out[kind + '_traits'] = sorted({(t['callee'].get('trait') or '').split('<')[0] for f in c.fns.values() for b in f.blocks for t in [b['term']] if t['t'] == 'call' and t['callee'].get('trait')} |
+                                           {(f.j.get('impl_trait') or '').split('<')[0] for f in c.fns.values() if f.j.get('impl_trait')})
+            out[kind + '_shape'] = {n: dict(sorted(f.shape().items())) for n, f in sorted(c.fns.items()) if not f.is_closure}
     json.dump(out, open(KNOWN_FILE, 'w'), indent=0)
     return out
